@@ -306,6 +306,14 @@ Theorem C18_backoff_kth_wait :
    /\ w <= bo_max (connect_backoff cmin cmax) + bo_max (connect_backoff cmin cmax) / 10 + 1)%Z.
 Proof. exact connect_kth_wait. Qed.
 
+(* ... and the check is tight: every told set / error verdict the harness accepts for a membership and an acknowledgement
+   pattern IS the outcome of Leave for some shuffle - leave_legal characterises the outcomes of leave_run exactly *)
+Theorem C18_leave_observation_complete :
+  forall c ack told err, NoDup (map n_id (values (c_nodes c))) -> leave_legal c ack told err = true ->
+  exists order, Permutation order (values (c_nodes c)) /\
+                fst (fst (leave_run c ack order)) = told /\ snd (leave_run c ack order) = err.
+Proof. exact leave_legal_complete. Qed.
+
 Print Assumptions C18_shutdown_withdraws.
 Print Assumptions C18_advertises_what_it_holds.
 Print Assumptions C18_cancel_before_leave.
@@ -341,3 +349,4 @@ Print Assumptions C18_ex_leave_run.
 Print Assumptions C18_transient_failures_are_retried.
 Print Assumptions C18_fatal_answer_ends_loop.
 Print Assumptions C18_backoff_kth_wait.
+Print Assumptions C18_leave_observation_complete.
